@@ -291,6 +291,17 @@ func StoresTo(al *ssa.Alloc) []*ssa.Store {
 						visitAddr(fn.FreeVars[i])
 					}
 				}
+			case *ssa.Call, *ssa.Go, *ssa.Defer:
+				// the address handed to a single-use step function of the module: its parameter is the cell
+				if cc := CallOf(r); cc != nil {
+					if callee := cc.StaticCallee(); callee != nil && InlineSite[callee] == r {
+						for i, a := range cc.Args {
+							if a == addr && i < len(callee.Params) {
+								visitAddr(callee.Params[i])
+							}
+						}
+					}
+				}
 			}
 		}
 	}
@@ -319,6 +330,17 @@ func LoadsOf(al *ssa.Alloc) []*ssa.UnOp {
 				for i, b := range x.Bindings {
 					if b == addr && i < len(fn.FreeVars) {
 						visitAddr(fn.FreeVars[i])
+					}
+				}
+			case *ssa.Call, *ssa.Go, *ssa.Defer:
+				// the address handed to a single-use step function of the module: its parameter is the cell
+				if cc := CallOf(r); cc != nil {
+					if callee := cc.StaticCallee(); callee != nil && InlineSite[callee] == r {
+						for i, a := range cc.Args {
+							if a == addr && i < len(callee.Params) {
+								visitAddr(callee.Params[i])
+							}
+						}
 					}
 				}
 			}
@@ -564,6 +586,10 @@ func ReachingStoresAt(al *ssa.Alloc, at ssa.Instruction) (stores []*ssa.Store, z
 		for _, o := range originsNoLoad(v) {
 			if mc, ok := o.(*ssa.MakeClosure); ok {
 				return mc.Fn.(*ssa.Function)
+			}
+			// a single-use step function that was handed the cell's address writes it like a literal would
+			if f, ok := o.(*ssa.Function); ok && len(writers[f]) > 0 {
+				return f
 			}
 		}
 		return nil
